@@ -19,7 +19,7 @@ RULE = ('cases = grammar-generated wire frames (64 methods, content headers, '
         'non-trivial = frame carries at least one argument/property/table '
         'entry; distinct = digest of the wire bytes')
 ASSUMPTIONS = ['tag L and longlong arguments generated below 2^63',
-               'ms timestamps: exact before 2106, 32us tolerance to year 9999',
+               'ms timestamps: exact to year 9999 (the 32 us tolerance of the design was dropped after D13)',
                'table keys <=128 chars, no duplicate keys']
 
 
@@ -285,7 +285,7 @@ def _reparse(data):
 def _approx(v):
     if isinstance(v, datetime.datetime):
         if v >= refcodec.dt_from_seconds(2**32):
-            return wire.TsApprox(v, 32)
+            return wire.TsApprox(v, 0)
         return v
     if isinstance(v, dict):
         return {k: _approx(x) for k, x in v.items()}
